@@ -341,6 +341,18 @@ def run(ctx):
 
     # ---- operators ----------------------------------------------------------------------------
     po = m.func("permutation_operator.permutation_operator")
+    from ..rules import r_index_label_layout
+    for f_ in (po, m.func("swap_operator.swap_operator"), m.func("swap.swap")):
+        r_index_label_layout(ctx, f_)
+    # every return of permutation_operator is the row-permuted identity obtained from permute_systems, or an index-label computation the
+    # rule above decides; anything else is not decided
+    rets_po = [n for n in walk_no_nested(po.node) if isinstance(n, ast.Return) and n.value is not None]
+    other = [r for r in rets_po if "permute_systems" not in unparse(r.value) and not any(
+        isinstance(d, ast.Assign) and isinstance(d.targets[0], ast.Name) and isinstance(r.value, ast.Name) and d.targets[0].id == r.value.id and "permute_systems" in unparse(d.value)
+        for d in walk_no_nested(po.node))]
+    lab_ok = all(any(o.function == po.short and o.construct.startswith("index-label permutation") and o.status == "discharged" for o in ctx.obs) for _ in other) if other else True
+    ctx.ob("R-BIND", po, "every return is permute_systems(identity, ..) or a decided index-label permutation", True if not other else (True if lab_ok else None),
+           "single delegation" if not other else f"{len(other)} return(s) outside the delegation", other[0] if other else None, required=not other or lab_ok)
     r_bind_literal(ctx, po, "permute_systems.permute_systems", "row_only", True)
     r_thread(ctx, po, "perm", "permute_systems.permute_systems")
     r_thread(ctx, po, "dim", "permute_systems.permute_systems")
